@@ -12,6 +12,9 @@ func init() {
 		"int64 instruments are compared in exact (wrapping) int64 arithmetic, float64 instruments exactly on values generated to be exactly summable; generated int64 totals never overflow (<= 3 values of magnitude <= MaxInt64/4 per synchronous stream)",
 		"an instrument is its whole identity (scope name + version + schema URL + scope attributes, name, kind, number type, unit, description): instruments that differ in one part only are distinct instruments, each held to every clause on its own; output metrics are matched by scope identity + name + unit + description; names differing in case only are not generated",
 		"a meter / instrument obtained once more with identical parameters is the same instrument; the spelling of a measurement's attribute options (WithAttributeSet, WithAttributes, several options merged with the later one winning, as documented) does not change its attribute set",
+		"what Collect leaves in the ResourceMetrics (bounds, bucket counts, data point / Metrics / ScopeMetrics slices) belongs to the caller, who may write over it in place after reading it; that is not an event of the measurement history, so every clause applies unchanged to later collections, and outputs the caller did not write to must not change",
+		"measurements made by several goroutines at once are joined before the next step and enter the model as a multiset (exact arithmetic makes totals order independent); a gauge then reports the last record of one of the goroutines; for streams measured WHILE the readers collect, the delta/cumulative comparison is suspended for that one cycle and resumes exactly with the next collection",
+		"the package is not built with -race: with the race detector the quick tier takes about 3x as long (beyond the 90 s budget); lost updates are caught by the exact running totals instead",
 		"delta StartTime is bracketed by the harness's wall-clock readings around the previous delta collection (monotonic clock); the cardinality limit is left to C12",
 	))
 }
